@@ -541,6 +541,39 @@ class API:
                             resource_messages=all_resource_messages,
                         )
 
+                    # Nested messages and enums are emitted inside their enclosing
+                    # messages: an enclosing message of anything allowlisted has to be
+                    # kept as well, together with everything it uses in turn.
+                    messages_by_selector = {
+                        message.ident.proto: message
+                        for proto in api.protos.values()
+                        for message in proto.all_messages.values()
+                    }
+                    pending = True
+                    while pending:
+                        pending = False
+                        for proto in api.protos.values():
+                            for item in itertools.chain(
+                                proto.all_messages.values(), proto.all_enums.values()
+                            ):
+                                if (
+                                    item.ident not in address_allowlist
+                                    or not item.ident.parent
+                                ):
+                                    continue
+                                enclosing = messages_by_selector.get(
+                                    item.ident.proto.rsplit(".", 1)[0]
+                                )
+                                if (
+                                    enclosing
+                                    and enclosing.ident not in address_allowlist
+                                ):
+                                    enclosing.add_to_address_allowlist(
+                                        address_allowlist=address_allowlist,
+                                        resource_messages=all_resource_messages,
+                                    )
+                                    pending = True
+
                     # We only prune services/messages/enums from protos that are not dependencies.
                     for name, proto in api.protos.items():
                         proto_to_generate = (
